@@ -44,9 +44,8 @@ _stats = {}
 
 def on_crash(crash, verdict):
     # key: <ID>/crash/<route>/<extremes class>/<kind>
-    cls = (crash.get("pre") or {}).get("class", "")
     route = "memcheck" if crash["stage"] == "api-memcheck" else "api"
-    return "C20/crash/%s/%s/%s" % (route, cls, crash["kind"])
+    return "C20/crash/%s/%s" % (route, crash["kind"])
 
 
 def post_stage(stage, res, verdict):
